@@ -1,5 +1,7 @@
 import ElvisVerif.Lemmas.ArpAgree
 import ElvisVerif.Lemmas.ArpCodec
+import ElvisVerif.Lemmas.ArpProgress
+import ElvisVerif.Lemmas.ArpMask
 /-!
 # C06 — ARP resolves an IP address to its owner's (or the gateway's) MAC
 
@@ -114,6 +116,12 @@ theorem c06_dest_no_subnet (m : Machine) (loc remote : Ip)
     (h : alookup loc m.localIps = none ∨ alookup loc m.localIps = some none) :
     destOf m loc remote = remote := by
   rcases h with h | h <;> simp [destOf, h]
+
+/-- what the gateway decision compares: with a mask of `b` leading ones (every `Ipv4Mask` is one),
+    `id(local,mask) = id(remote,mask)` iff the two 32-bit addresses agree above the `32 - b` host bits -/
+theorem c06_same_subnet_iff (a c b : Nat) (ha : a < 2 ^ 32) (hc : c < 2 ^ 32) (hb : b ≤ 32) :
+    netId a (maskFromBitcount b) = netId c (maskFromBitcount b) ↔ a / 2 ^ (32 - b) = c / 2 ^ (32 - b) :=
+  netId_eq_iff a c b ha hc hb
 
 /-- the resolver started by a `resolve` transition asks for `destOf` of the machine after it has
     listened on `local` -/
@@ -409,6 +417,20 @@ theorem c06_early_failure_regression :
     resultOf (run (initWith true [1, 1] 65535) joinWitness) 1 = some (.err, budgetUs) ∧
     resultOf (run (initWith false [1, 1] 65535) joinWitness) 1 = some (.ok 1, budgetUs + resendDelayUs / 4) := by
   constructor <;> decide
+
+/-- No time-lock: from every reachable state (of the code as it is: cached failures are not
+    answers), serving resolvers `0, 1, …` in turn — `wake i` lets a runnable waiter read the table,
+    `timeout i` serves a due time-out; finitely many transitions, no time passing — leads to a state
+    in which the clock may advance.  So "time cannot pass a waiting resolver's deadline"
+    (`c06_never_hangs`) is never satisfied by the model freezing time for ever: the resolver does
+    return. -/
+theorem c06_time_can_pass {s : Net} (hr : Reach s) (hn : s.negCache = false) (hp : s.panic = none) :
+    (run s (serveAll s.resolvers.length)).now = s.now ∧
+    (run s (serveAll s.resolvers.length)).canTick 1 = true := by
+  obtain ⟨h1, _, _, h4, _, h6⟩ := serveAll_spec hp hn hr.tinv (by decide) s.resolvers.length
+  refine ⟨h1, canTick_of_unblocked fun r hmem => ?_⟩
+  obtain ⟨i, hi⟩ := List.getElem?_of_mem hmem
+  exact h6 i (by rw [← h4]; exact getElem?_lt hi) r hi
 
 /-- the extracted retry budget is a real budget (whatever its values: the theorems above are
     stated over the extracted constants, not over 10 × 200 ms) -/
